@@ -59,22 +59,23 @@ type Conn struct {
 	CallLog    []string // last few calls: "step:gid:what"
 
 	// fault plan (set before the run or by environment actions)
-	WriteErrAfter int           // fail writes once this many bytes were accepted; <0: never
-	CutAfter      int           // the peer's stream ends after this many bytes; <0: never
-	StopReadAt    int           // the peer process stops reading after this many client bytes (stuck server, black hole); <0: never
-	PauseReadAt   int           // the peer process stops reading after this many client bytes ... (<0: never)
-	PauseFor      time.Duration // ... for this long (a busy server), and then carries on
-	pausedAt      time.Duration // when the pause began (-1: not yet)
-	wbusy         bool          // a Write is in progress: like the fd write lock, a second Write waits for it whatever the deadline
-	CloseErr      bool          // Close releases the connection but reports an error (tls.Conn does when close_notify cannot be written)
-	CutRST        bool
-	Window        int  // >0: Write blocks while more than Window bytes are unconsumed
-	ReadCap       int  // >0: the next Read returns at most this many bytes (short read)
-	EmptyReads    int  // per-mille chance that a delivery is preceded by an empty read
-	EmptyNext     bool // the next Read that has data returns (0, nil) first, as for a zero-length segment of the peer
-	enq           int  // bytes accepted from the peer so far (before cut)
-	Delivered     int
-	ReadBytes     int
+	WriteErrAfter     int           // fail writes once this many bytes were accepted; <0: never
+	CutAfter          int           // the peer's stream ends after this many bytes; <0: never
+	StopReadAt        int           // the peer process stops reading after this many client bytes (stuck server, black hole); <0: never
+	PauseReadAt       int           // the peer process stops reading after this many client bytes ... (<0: never)
+	PauseFor          time.Duration // ... for this long (a busy server), and then carries on
+	pausedAt          time.Duration // when the pause began (-1: not yet)
+	WriteBlockedUntil time.Duration // simulated time until which no Write makes progress (send buffer full, peer not reading); 0: never
+	wbusy             bool          // a Write is in progress: like the fd write lock, a second Write waits for it whatever the deadline
+	CloseErr          bool          // Close releases the connection but reports an error (tls.Conn does when close_notify cannot be written)
+	CutRST            bool
+	Window            int  // >0: Write blocks while more than Window bytes are unconsumed
+	ReadCap           int  // >0: the next Read returns at most this many bytes (short read)
+	EmptyReads        int  // per-mille chance that a delivery is preceded by an empty read
+	EmptyNext         bool // the next Read that has data returns (0, nil) first, as for a zero-length segment of the peer
+	enq               int  // bytes accepted from the peer so far (before cut)
+	Delivered         int
+	ReadBytes         int
 
 	// fired counters
 	Fired map[string]int
@@ -278,6 +279,27 @@ func (c *Conn) Write(p []byte) (int, error) {
 			c.unlock()
 			return done, opErr("write", os.ErrDeadlineExceeded)
 		}
+		if c.WriteBlockedUntil > 0 && c.Sim.Now() < c.WriteBlockedUntil {
+			// nothing goes out for now: wait for the deadline, a Close, or the end of the blockage
+			c.Fired["write_blocked"]++
+			w := c.wake
+			until := c.WriteBlockedUntil - c.Sim.Now()
+			c.unlock()
+			sched.RaceDisable()
+			wait := until
+			if !dl.IsZero() && time.Until(dl) < wait {
+				wait = time.Until(dl)
+			}
+			t := time.NewTimer(wait)
+			select {
+			case <-w:
+			case <-t.C:
+			}
+			t.Stop()
+			sched.RaceEnable()
+			c.Sim.Yield("conn.Write.wake")
+			continue
+		}
 		n := len(p) - done
 		if c.Window > 0 {
 			room := c.Window - (len(c.Out) - c.Consumed)
@@ -458,7 +480,16 @@ func (c *Conn) Deliverable() bool {
 	return len(c.queue) > 0 || (c.finQ && !c.fin) || (c.rstQ && !c.rst)
 }
 
-// Enq is the number of bytes accepted from the peer so far.
+// ReadLen is the number of bytes the client has taken out of the connection.
+//
+//go:norace
+func (c *Conn) ReadLen() int {
+	c.lock()
+	defer c.unlock()
+	return c.ReadBytes
+}
+
+// Enq is the number of bytes the peer has sent so far.
 //
 //go:norace
 func (c *Conn) Enq() int {
